@@ -30,6 +30,13 @@ INCLUDES = [CL + "/acquire-core-logger", CL + "/acquire-core-platform/linux", CL
 WRAP = "-Wl,--wrap=open,--wrap=flock,--wrap=pwrite,--wrap=close,--wrap=file_create,--wrap=file_write,--wrap=file_close"
 RUN_ENV = {"ASAN_OPTIONS": "detect_leaks=0:exitcode=77:allocator_may_return_null=1", "UBSAN_OPTIONS": "exitcode=78:print_stacktrace=1"}
 KINDS = ["raw", "tiff", "tiffjson", "trash"]
+# the error numbers a scripted pwrite failure reports (sysshim.c, Pwrite.errno); a bare "E" in an old corpus file = EIO
+ERRNOS = ["EIO", "ENOSPC", "EAGAIN", "EINTR", "EBADF"]
+EXIT_TRUNC, EXIT_SPIN = 79, 80      # step budget of sysshim.c: one call logged > 4000 lines / the same pwrite reissued 1000 times
+
+
+def is_err_tok(t):
+    return t[:1] == "E"
 EXT = {"raw": ".raw", "tiff": ".tif", "tiffjson": ".d", "trash": ".x"}
 
 
@@ -88,7 +95,26 @@ def strip_uri(u):
     return u[7:] if len(u) >= 7 and u.startswith("file://") else u
 
 
-def gen_history(rng, kind, thorough=False):
+def related_name(rng, names, c, ext):
+    """Path of cycle c of a raw history.  Besides fresh names: an EXTENSION of an earlier path (the earlier one is a strict
+    prefix of the new one: run1 -> run10, out.raw -> out.raw.1), a strict PREFIX of an earlier path (run10 -> run1), the
+    same path again, and the empty name.  Returns (name, relation)."""
+    prev = [n for n in names if n]
+    r = rng.random()
+    if prev and r < 0.24:
+        return rng.choice(prev) + rng.choice(["0", "1", ".1", ".raw", "x", "_b", "0.raw"]), "extends-earlier"
+    if prev and r < 0.38:
+        p = rng.choice(prev)
+        if len(p) > 1:
+            return p[:rng.randrange(1, len(p))], "prefix-of-earlier"
+    if prev and r < 0.50:
+        return rng.choice(prev), "same-again"
+    if 0.50 <= r < 0.53:
+        return "", "empty"
+    return rng.choice(["f%d%s" % (c, ext), "run%d" % (c + 1), "out%s" % ext, "r%d" % rng.randrange(4), "acq%d%s" % (rng.randrange(12), ext)]), "fresh"
+
+
+def gen_history(rng, kind, thorough=False, related=False):
     """set/start/append*/stop cycles on one device, with life-cycle noise (never started, double start, stop when idle,
     append when idle, close while running, other descriptors opened and closed by the rest of the process).
     The runtime's discipline 'no set while running' (C08) is kept: a stop is inserted before such a set."""
@@ -97,12 +123,19 @@ def gen_history(rng, kind, thorough=False):
     if kind == "tiffjson" and rng.random() < 0.93 or kind == "tiff" and rng.random() < 0.6:
         meta = rng.choice(['{"a":1}', '{}', '{"k":"%s"}' % ("x" * rng.randrange(0, 40))])
     ops = []
-    ncycles = rng.choice([1, 1, 2, 2, 3, 4])
+    ncycles = rng.choice([1, 1, 2, 2, 3, 4]) if not related else rng.choice([1, 2, 2, 3, 3, 4, 5])
     names = []
     reuse = False
+    rel = []
     for c in range(ncycles):
         r = rng.random()
-        if names and r < 0.06:
+        if related and kind == "raw":
+            name, how = related_name(rng, names, c, ext)
+            if name in names and name:
+                how = "same-again"
+            reuse = reuse or how == "same-again"
+            rel.append(how)
+        elif names and r < 0.06:
             name = rng.choice(names)
             reuse = True
         elif r < 0.09 and kind != "tiffjson":
@@ -111,9 +144,14 @@ def gen_history(rng, kind, thorough=False):
             name = "f%d%s" % (c, ext)
         names.append(name)
         uri = ("file://" if rng.random() < 0.5 else "") + name
+        if related and kind == "raw" and len(name) > 1 and rng.random() < 0.15:
+            # configured twice before the start: first a strict prefix of the path (or the path in the other spelling)
+            first = name[:rng.randrange(1, len(name))] if rng.random() < 0.7 else name
+            ops.append(["set", ("" if uri.startswith("file://") else "file://") + first])
+            rel.append("set-twice")
         ops.append(["set", uri])
         if rng.random() < 0.1:
-            ops.append(["set", uri])
+            ops.append(["set", uri if not related or rng.random() < 0.5 else ("file://" if rng.random() < 0.5 else "") + name])
         if rng.random() < 0.1:
             continue                       # configured, never started
         ops.append(["start"])
@@ -150,7 +188,7 @@ def gen_history(rng, kind, thorough=False):
         if o[0] == "stop":
             maybe_running = False
         out.append(o)
-    return {"kind": kind, "meta": meta, "ops": out, "cs": ["o", ""], "ws": ["F", []], "reuse": reuse}
+    return {"kind": kind, "meta": meta, "ops": out, "cs": ["o", ""], "ws": ["F", []], "reuse": reuse, "rel": rel}
 
 
 def annotate_frames(case):
@@ -187,7 +225,7 @@ def short_write_script(rng, case):
         elif r < 0.80:
             toks += ["0", "0", "0"]
         elif r < 0.83:
-            toks += [str(rng.randrange(0, n + 1)), "E"]
+            toks += [str(rng.randrange(0, n + 1)), rng.choice(ERRNOS)]
         else:
             left = n
             while left > 0 and len(toks) < 3000:
@@ -248,7 +286,7 @@ def parse_output(text):
     for line in text.split("\n"):
         if line.startswith("CASE "):
             cur = {"init": [0, 1, 2], "ops": [], "final": None, "exit": None, "files": {}, "ledger": None, "trunc": False,
-                   "diverged": False, "bad": []}
+                   "diverged": False, "bad": [], "spin": None}
             res[line[5:].strip()] = cur
             op = None
             continue
@@ -268,6 +306,9 @@ def parse_output(text):
                 k = w[-1] == "k=1"
                 w = w[:-1]
             op["kopen"].append(k)
+            if w[-1].startswith("e="):            # errno name of a failed pwrite (harness only; not an observable of the tie)
+                op.setdefault("errno", {})[len(op["sys"])] = w[-1][2:]
+                w = w[:-1]
             if w[1] == "pwrite":
                 op["sys"].append(("pwrite", int(w[2]), int(w[3]), int(w[4]), int(w[5])))
             elif w[1] == "open":
@@ -294,6 +335,8 @@ def parse_output(text):
                 cur["diverged"] = True
         elif t == "TRUNC":
             cur["trunc"] = True
+        elif t == "SPIN":
+            cur["spin"] = w[1:]                   # fd off len res errno count
         elif t == "DIVERGES":
             cur["diverged"] = True
         elif t in ("BADOP", "FATAL"):
@@ -405,33 +448,27 @@ def compare(ctx, case, impl, model):
 
 
 # ----------------------------------------------------------------------------- independent property oracles
-def oracle_c14(case, impl):
-    """C14 directly on the implementation's outputs: for every acquisition (start that reached Running ... stop/close)
-    whose appends all reported success, the bytes on disk = the appended packets, back to back.  Acquisitions that
-    re-use a path of this history are outside the statement (file_create does not truncate) and are only counted."""
-    v = []
-    stats = {"acq": 0, "outside": 0, "checked": 0}
-    if case["kind"] != "raw" or impl is None or impl["exit"] != (0, 0):
-        return v, stats
-    ops = case["ops"]
-    cur_path = None          # path of the last accepted set
-    acq = None               # [path, [packets], all_ok]
+def acquisitions(case, impl):
+    """The acquisitions of a raw history as the CALLER sees them (HAL answers only): an acquisition begins with a start
+    that answered ok/Running and goes to the path of the last set that answered ok; it collects the packets whose
+    append answered ok/Running and ends at a stop, at the first append that did not answer ok (the device has stopped
+    itself) or at the close."""
+    cur = None               # (path, op index of the set, uri as given)
+    acq = None
     done = []
-    seen_paths = []
-    for k, (o, r) in enumerate(zip(ops, impl["ops"])):
+    for k, (o, r) in enumerate(zip(case["ops"], impl["ops"])):
         res = r["res"]
         if o[0] == "set" and res and res[0] == "ok":
-            cur_path = strip_uri(o[1])
+            cur = (strip_uri(o[1]), k, o[1])
         elif o[0] == "start":
-            if res and res == ("ok", "Running"):
-                if acq:
-                    done.append(acq)
-                acq = [cur_path, [], True, k]
+            if res == ("ok", "Running") and acq is None and cur is not None:
+                acq = {"path": cur[0], "set_op": cur[1], "uri": cur[2], "start_op": k, "pkts": [], "ok": True, "failed": None}
         elif o[0] == "append" and acq is not None:
             if res == ("ok", "Running"):
-                acq[1].append(bytes.fromhex(o[1]))
+                acq["pkts"].append(bytes.fromhex(o[1]))
             else:
-                acq[2] = False
+                acq["ok"] = False
+                acq["failed"] = bytes.fromhex(o[1])
                 done.append(acq)
                 acq = None
         elif o[0] == "stop" and acq is not None:
@@ -439,28 +476,82 @@ def oracle_c14(case, impl):
             acq = None
     if acq:
         done.append(acq)
-    for path, pkts, ok, k in done:
-        stats["acq"] += 1
-        fresh = path not in seen_paths
-        seen_paths.append(path)
-        if not fresh or sum(1 for d in done if d[0] == path) > 1:
-            stats["outside"] += 1
-            continue
-        if not ok:
-            continue
-        want = b"".join(pkts)
+    return done
+
+
+def oracle_c14(case, impl):
+    """C14 directly on the implementation's files (never through the model).  For every path P that a started
+    acquisition of the history was configured for, with A = the LAST acquisition configured for P:
+      (exists)     a file exists at P;
+      (exact)      if every append of A answered ok: the file is exactly A's packets back to back;
+                   if an append of A failed: the file begins with the packets that were accepted and the rest is a prefix
+                   of the packet whose append failed (nothing foreign);
+      (untouched)  follows from (exact) applied to every path: the data of an acquisition to P is still there after
+                   all LATER acquisitions to OTHER paths.  Earlier acquisitions to the same P are superseded (file_create
+                   truncates): counted, not judged.
+    'Same path' = the same string after file:// stripping (the generator produces no ./, //, links)."""
+    v = []
+    stats = {"acq": 0, "superseded": 0, "checked": 0, "checked_failed_acq": 0}
+    if case["kind"] != "raw" or impl is None or impl["exit"] != (0, 0):
+        return v, stats
+    done = acquisitions(case, impl)
+    stats["acq"] = len(done)
+    last = {}
+    for a in done:
+        if a["path"] in last:
+            stats["superseded"] += 1
+        last[a["path"]] = a
+    for path, a in last.items():
+        k = a["start_op"]
+        where = "the acquisition started at op %d (op %d: set %r answered ok/Armed)" % (k, a["set_op"], a["uri"])
         got = read_file(case, path)
-        stats["checked"] += 1
-        if got != want:
-            if got is not None and len(got) > len(want) and got.endswith(want) and not any(got[:len(got) - len(want)]):
-                key, what = "raw-hole-at-start", ("the raw file %r of the acquisition started at op %d begins with %d zero bytes that were never "
-                                                  "appended; the %d appended bytes follow" % (path, k, len(got) - len(want), len(want)))
-            else:
-                key, what = "raw-bytes-differ", ("the raw file %r of the acquisition started at op %d holds %s bytes, the appended packets are %d bytes; "
-                                                 "first difference at %s" % (path, k, None if got is None else len(got), len(want),
-                                                                             None if got is None else next((i for i in range(min(len(got), len(want))) if got[i] != want[i]), min(len(got), len(want)))))
-            v.append((key, what))
+        want = b"".join(a["pkts"])
+        stats["checked" if a["ok"] else "checked_failed_acq"] += 1
+        if got is None:
+            v.append(("raw-file-missing", "no file exists at %r, the path configured for %s; %d bytes were appended to it"
+                      % (path, where, len(want))))
+            continue
+        if a["ok"] and got == want:
+            continue
+        if not a["ok"] and got.startswith(want) and a["failed"].startswith(got[len(want):]):
+            continue
+        # describe the difference
+        other = [b for b in done if b is not a and b["path"] != path and b["pkts"] and b"".join(b["pkts"]) == got]
+        stale = [b for b in done if b is not a and b["path"] == path and b["start_op"] < k and b["ok"] and b["pkts"] and b"".join(b["pkts"]) == got]
+        if a["ok"] and len(got) > len(want) and got.endswith(want) and not any(got[:len(got) - len(want)]):
+            key, what = "raw-hole-at-start", ("the raw file %r of the acquisition started at op %d begins with %d zero bytes that were never "
+                                              "appended; the %d appended bytes follow" % (path, k, len(got) - len(want), len(want)))
+        elif a["ok"] and stale:
+            b = stale[-1]
+            key, what = "raw-stale-contents", (
+                "the raw file %r of %s was not written by it: it still holds exactly the %d bytes of the EARLIER acquisition to the same path "
+                "started at op %d; the %d bytes appended at op %d.. are not in it" % (path, where, len(got), b["start_op"], len(want), k))
+        elif other:
+            b = other[-1]
+            key, what = "raw-written-to-other-path", (
+                "the raw file %r of %s does not hold the %d bytes appended to it: it holds exactly the %d bytes appended during the %s "
+                "acquisition started at op %d, which was configured (op %d: set %r answered ok/Armed) for the other path %r"
+                % (path, where, len(want), len(got), "later" if b["start_op"] > k else "earlier", b["start_op"], b["set_op"], b["uri"], b["path"]))
+        else:
+            diff = next((i for i in range(min(len(got), len(want))) if got[i] != want[i]), min(len(got), len(want)))
+            key, what = "raw-bytes-differ", ("the raw file %r of the acquisition started at op %d holds %d bytes, the %s are %d bytes; "
+                                             "first difference at %d" % (path, k, len(got), "appended packets" if a["ok"] else
+                                                                         "packets accepted before the failing append", len(want), diff))
+        v.append((key, what))
     return v, stats
+
+
+def reissued_ok(sysl, i):
+    """The failed pwrite sysl[i] was issued again within the same device call and the whole range went to the file
+    after all (a bounded retry of an interrupted call is not a write failure the device has to report)."""
+    _, fd, off, n, _ = sysl[i]
+    pos = off
+    for t in sysl[i + 1:]:
+        if t[0] == "pwrite" and t[1] == fd and t[2] == pos and t[4] > 0:
+            pos += t[4]
+            if pos >= off + n:
+                return True
+    return False
 
 
 def oracle_c16(case, impl, stderr=""):
@@ -471,8 +562,19 @@ def oracle_c16(case, impl, stderr=""):
         return [("no-output", "the harness produced no output for the case")]
     if impl["exit"] != (0, 0) or impl["trunc"]:
         code, sig = impl["exit"] or (None, None)
-        if sig == 24:
-            v.append(("hang", "the device call did not return within the CPU limit (SIGXCPU)"))
+        last = impl["ops"][-1] if impl["ops"] else {"name": "?", "sys": []}
+        kcall = len(impl["ops"]) - 1
+        if code == EXIT_SPIN or impl.get("spin"):
+            sp = impl.get("spin") or ["?"] * 6
+            v.append(("hang", "op %d (%s) never returned: the device kept reissuing the same failing call pwrite(fd=%s, off=%s, len=%s) = %s%s; "
+                      "cut off by the step budget after %s identical calls in a row (exit %s) -- under a persistent %s the call spins for ever "
+                      "instead of giving up and reporting the failure" % (kcall, last["name"], sp[0], sp[1], sp[2], sp[3],
+                                                         " (errno %s)" % sp[4] if sp[4] != "-" else "", sp[5], code,
+                                                         sp[4] if sp[4] != "-" else "zero-length result")))
+        elif sig in (24, 14):
+            v.append(("hang", "op %d (%s) did not return within the per-case budget (%s); its last system calls: %s"
+                      % (kcall, last["name"], "CPU limit 10 s, SIGXCPU" if sig == 24 else "wall-clock limit 30 s, SIGALRM",
+                         [list(x) for x in last["sys"][-4:]])))
         elif impl["trunc"] or "stack-overflow" in (stderr or ""):
             last = impl["ops"][-1] if impl["ops"] else {"name": "?", "sys": []}
             tail = [list(x) for x in last["sys"][-4:]]
@@ -518,7 +620,8 @@ def oracle_c16(case, impl, stderr=""):
         if o["name"] in ("start", "append") and failed_call and o["res"] and o["res"][1] == "Running":
             v.append(("failure-not-reported", "op %d (%s): file_create/file_write returned 0 inside the call but the device is still Running afterwards"
                       % (k, o["name"])))
-        if o["name"] in ("start", "append") and o["res"] and o["res"][1] == "Running" and any(s[0] == "pwrite" and s[4] < 0 for s in o["sys"]):
+        if o["name"] in ("start", "append") and o["res"] and o["res"][1] == "Running" and any(
+                s[0] == "pwrite" and s[4] < 0 and not reissued_ok(o["sys"], i) for i, s in enumerate(o["sys"])):
             v.append(("failure-not-reported", "op %d (%s): a pwrite failed inside the call but the device is still Running afterwards" % (k, o["name"])))
     if impl["exit"] == (0, 0) and not impl["trunc"]:
         if impl["final"] is not None:
@@ -577,27 +680,95 @@ def disciplined(ops):
     return True
 
 
-def minimise(ctx, orac, impl, case, prop, key, counter=[0]):
-    base = export_case(case)
+def tiny_packet(i):
+    """One frame without pixels (96 bytes) whose header fields identify it -- what a packet is replaced by when shrinking."""
+    i = i % 250 + 1
+    hdr = struct.pack("<Q4I4qI4xQQQQ", 96, 1, 1, 1, 1, 1, 1, 1, 1, 0, i, i, i, i)
+    return hdr, [{"fid": i, "hwid": i, "t_hw": i, "t_acq": i, "ldata": 0}]
 
-    def fails(ops):
-        if not disciplined(ops):
+
+def shrink_case(ctx, orac, impl, case, bad, counter=[0], budget=160):
+    """Minimise a failing case: ddmin on the op list (keeping 'no set while running'), then every packet replaced by a
+    96-byte one, then the write and create scripts (no script at all / only the tail = 'every call' / ddmin on the
+    entries), then the metadata.  bad(case, impl record, model record, stderr) decides whether a candidate still fails;
+    it is evaluated on the implementation's fresh output and files."""
+    cur = export_case(case)
+    left = [budget]
+
+    def test(obj):
+        if left[0] <= 0 or not obj["ops"] or not disciplined(obj["ops"]):
             return False
-        cand = import_case(dict(base, ops=ops))
+        left[0] -= 1
         counter[0] += 1
-        r = run_batch(ctx, orac, impl, [cand], "min%d" % counter[0])
-        c, io, mo, err = r[0]
-        vs = oracle_c14(c, io)[0] if prop == "C14" else oracle_c16(c, io, err)
-        drop_cases(ctx, "min%d" % counter[0])
-        return any(k == key for k, _ in vs)
+        tag = "min%d" % counter[0]
+        try:
+            r = run_batch(ctx, orac, impl, [import_case(obj)], tag)
+            return bool(bad(*r[0]))
+        except Exception:
+            return False
+        finally:
+            drop_cases(ctx, tag)
+
+    def shrink_ops():
+        nonlocal cur
+        ops = vlib.ddmin(cur["ops"], lambda ops: test(dict(cur, ops=ops)), max_tests=40)
+        if len(ops) < len(cur["ops"]) and test(dict(cur, ops=ops)):
+            cur = dict(cur, ops=ops)
+            return True
+        return False
+
+    def shrink_packets():
+        nonlocal cur
+        napp = 0
+        for i, o in enumerate(cur["ops"]):
+            if o[0] == "append":
+                napp += 1
+                if len(o[1]) > 2 * 96:
+                    data, frames = tiny_packet(napp)
+                    ops2 = [list(x) for x in cur["ops"]]
+                    ops2[i] = ["append", data.hex(), frames]
+                    if test(dict(cur, ops=ops2)):
+                        cur = dict(cur, ops=ops2)
+
+    def shrink_scripts():
+        nonlocal cur
+        changed = False
+        for key, plain, join in (("ws", ["F", []], list), ("cs", ["o", ""], "".join)):
+            tail, ent = cur[key]
+            if [tail, join(ent)] == plain:
+                continue
+            for cand in (plain, [tail, join([])], [plain[0], join(ent)]):
+                if cand != [tail, join(ent)] and test(dict(cur, **{key: cand})):
+                    cur = dict(cur, **{key: cand})
+                    changed = True
+                    break
+            tail, ent = cur[key]
+            if len(ent) >= 2:
+                ent2 = vlib.ddmin(list(ent), lambda e: test(dict(cur, **{key: [tail, join(e)]})), max_tests=20)
+                if len(ent2) < len(ent) and test(dict(cur, **{key: [tail, join(ent2)]})):
+                    cur = dict(cur, **{key: [tail, join(ent2)]})
+                    changed = True
+        return changed
 
     try:
-        ops = vlib.ddmin(base["ops"], fails, max_tests=40)
-        if not fails(ops):
-            ops = base["ops"]
+        shrink_scripts()
+        shrink_ops()
+        shrink_packets()
+        if shrink_scripts():
+            shrink_ops()
+        if cur.get("meta") and cur["kind"] != "tiffjson" and test(dict(cur, meta=None)):
+            cur = dict(cur, meta=None)
     except Exception:
-        ops = base["ops"]
-    return import_case(dict(base, ops=ops))
+        pass
+    return import_case(cur)
+
+
+def judge(prop, c, io, err):
+    return oracle_c14(c, io)[0] if prop == "C14" else oracle_c16(c, io, err)
+
+
+def minimise(ctx, orac, impl, case, prop, key):
+    return shrink_case(ctx, orac, impl, case, lambda c, io, mo, err: any(k == key for k, _ in judge(prop, c, io, err)))
 
 
 def replay_obj(ctx, case, impl_rec, what):
@@ -628,6 +799,12 @@ def fold(ctx, orac, impl, results, prop, label):
             ctx.count("case:with-short-write")
         for o in case["ops"]:
             ctx.count("op:" + o[0])
+        for how in set(case.get("rel", [])):
+            ctx.count("paths:" + how)
+        for e in set(t for t in case["ws"][1] + [case["ws"][0]] if is_err_tok(t)):
+            ctx.count("errno:" + ("EIO" if e == "E" else e) + (":persistent" if case["ws"][0] == e else ":transient"))
+        if io and (io.get("spin") or io.get("exit") == (EXIT_SPIN, 0)):
+            ctx.count("case:cut-off-spinning")
         if io and io["ops"] and io["ops"][-1]["name"] == "close":
             pre = io["ops"][-2]["res"][1] if len(io["ops"]) > 1 and io["ops"][-2]["res"] else "AwaitingConfiguration"
             ctx.count("close-in-state:" + (pre if pre != "-" else "other"))
@@ -639,25 +816,60 @@ def fold(ctx, orac, impl, results, prop, label):
         else:
             vs = oracle_c16(case, io, err)
         for key, what in vs:
-            if not ctx.has_violation(key):
-                small = minimise(ctx, orac, impl, case, prop, key)
-                small["src"] = case.get("src", "generated (seed %d)" % ctx.seed) + (
-                    "" if len(small["ops"]) == len(case["ops"]) else ", shrunk from %d to %d ops" % (len(case["ops"]), len(small["ops"])))
-                r = run_batch(ctx, orac, impl, [small], "rep-" + key)
-                c2, io2, mo2, err2 = r[0]
-                vs2 = oracle_c14(c2, io2)[0] if prop == "C14" else oracle_c16(c2, io2, err2)
-                drop_cases(ctx, "rep-" + key)
-                w2 = next((w for k3, w in vs2 if k3 == key), what)
-                ctx.violation("[%s %s] %s" % (case["kind"], key, w2), replay_obj(ctx, c2, io2, w2), key=key)
-            else:
-                ctx.violation(what, None, key=key)
+            report(ctx, orac, impl, case, prop, key, what)
         # tie
         d = compare(ctx, case, io, mo)
         if d is None:
             ctx.traces_validated += 1
         else:
-            ctx.broken_tie("model/implementation disagreement on a %s storage history" % case["kind"],
-                           {"difference": d, "case": replay_obj(ctx, case, io, "")["harness_stdin"][:60]})
+            detail = {"difference": d, "case": replay_obj(ctx, case, io, "")["harness_stdin"][:60]}
+            # search around the disagreement (first few only): shrink it as a disagreement and run the property oracle
+            # on the implementation's files of every candidate on the way -- a smaller history may violate the property
+            # where the generated one only differs from the model
+            nd = ctx.extra.get("disagreements_explored", 0)
+            if nd < 3:
+                ctx.extra["disagreements_explored"] = nd + 1
+                seen = []
+
+                def differs(c, io2, mo2, err2):
+                    for key, what in judge(prop, c, io2, err2):
+                        seen.append((export_case(c), key, what))
+                    return compare(ctx, c, io2, mo2) is not None
+
+                small = shrink_case(ctx, orac, impl, case, differs, budget=60)
+                r = run_batch(ctx, orac, impl, [small], "dis")
+                c2, io2, mo2, err2 = r[0]
+                detail = {"difference": compare(ctx, c2, io2, mo2), "shrunk_from_ops": len(case["ops"]),
+                          "case": replay_obj(ctx, c2, io2, "")["harness_stdin"][:60]}
+                drop_cases(ctx, "dis")
+                for obj, key, what in seen:
+                    if not ctx.has_violation(key):
+                        c3 = import_case(obj)
+                        c3["src"] = case.get("src", "generated (seed %d)" % ctx.seed) + ", variant met while shrinking a model/implementation disagreement"
+                        report(ctx, orac, impl, c3, prop, key, what)
+            ctx.broken_tie("model/implementation disagreement on a %s storage history" % case["kind"], detail)
+
+
+def report(ctx, orac, impl, case, prop, key, what):
+    """A concrete violation: minimise it (first of its key only), re-run the minimised case, record it with the replay."""
+    if ctx.has_violation(key):
+        ctx.violation(what, None, key=key)
+        return
+    small = minimise(ctx, orac, impl, case, prop, key)
+    nb = lambda c: sum(len(o[1]) // 2 for o in c["ops"] if o[0] == "append")
+    small["src"] = case.get("src", "generated (seed %d)" % ctx.seed) + (
+        "" if len(small["ops"]) == len(case["ops"]) and nb(small) == nb(case) else
+        ", shrunk from %d ops / %d packet bytes to %d ops / %d packet bytes" % (len(case["ops"]), nb(case), len(small["ops"]), nb(small)))
+    r = run_batch(ctx, orac, impl, [small], "rep-" + key)
+    c2, io2, mo2, err2 = r[0]
+    vs2 = judge(prop, c2, io2, err2)
+    drop_cases(ctx, "rep-" + key)
+    if not any(k3 == key for k3, _ in vs2):          # the shrunk case does not reproduce (should not happen): keep the original
+        c2, w2 = case, what
+        io2 = None
+    else:
+        w2 = next(w for k3, w in vs2 if k3 == key)
+    ctx.violation("[%s %s] %s" % (case["kind"], key, w2), replay_obj(ctx, c2, io2, w2), key=key)
 
 
 def load_corpus(prop):
@@ -694,6 +906,7 @@ def count_calls(orac, cases):
 
 def clone(case):
     c = import_case(export_case(case))
+    c["rel"] = list(case.get("rel", []))
     if len(case["ops"]) and any(o[0] == "append" and len(o) > 3 for o in case["ops"]):
         for o, o0 in zip(c["ops"], case["ops"]):
             if o[0] == "append":
@@ -703,9 +916,13 @@ def clone(case):
 
 
 def fault_sweep(rng, case, nopen, nwrite, limit=None):
-    """Every index of a create or write call of the reference history, transient and persistent; create faults as a
-    failing open and as a failing flock."""
+    """Every index of a create or write call of the reference history, transient (that one call fails) and persistent
+    (every call from that index on fails); create faults as a failing open and as a failing flock.  Every failing
+    pwrite reports an errno of ERRNOS: the errno rotates with the index (independently for the transient and the
+    persistent case, random phase per history), a history with fewer than 5 swept indices gets every errno at every
+    index, and every history gets one persistent case per errno at a random index on top."""
     out = []
+    pa, pb = rng.randrange(len(ERRNOS)), rng.randrange(len(ERRNOS))
     idx_o = list(range(nopen))
     idx_w = list(range(nwrite))
     if limit is not None:
@@ -719,12 +936,20 @@ def fault_sweep(rng, case, nopen, nwrite, limit=None):
                 out.append(c)
     for k in idx_w:
         for persistent in (False, True):
-            c = clone(case)
-            c["ws"] = ["E" if persistent else "F", ["F"] * k + ["E"]]
-            out.append(c)
+            errs = ERRNOS if len(idx_w) < 5 else [ERRNOS[(k + (pa if persistent else pb)) % len(ERRNOS)]]
+            for e in errs:
+                c = clone(case)
+                c["ws"] = [e if persistent else "F", ["F"] * k + [e]]
+                out.append(c)
         if rng.random() < 0.3:
             c = clone(case)
             c["ws"] = ["F", ["F"] * k + ["0", "0", "0"]]      # file_write gives up after three zero-length results
+            out.append(c)
+    if nwrite:
+        for e in ERRNOS:
+            k = rng.randrange(nwrite)
+            c = clone(case)
+            c["ws"] = [e, ["F"] * k]
             out.append(c)
     return out
 
@@ -750,8 +975,11 @@ def run(ctx):
                      "of its reference histories")
     ctx.notes.append("model = the code with fixes/01-04 applied (05 is in /repo as a3ee066) and file_create truncating (468e0c6)")
     ctx.extra["scope_notes"] = [
-        "C14 oracle: acquisitions that re-use a path of the same history are outside the property's text ('other paths'); counted in c14_outside and "
-        "not judged by the oracle. The model (file_create truncates) still predicts their bytes and the tie compares them; theorem C14_exact covers them",
+        "C14 oracle: per path, the LAST started acquisition configured for it is judged (exists / exact bytes); earlier acquisitions to the same "
+        "path are superseded because file_create truncates (counted in c14_superseded); 'same path' is string equality after file:// stripping",
+        "C14 oracle, acquisition whose append failed: the file must begin with the accepted packets and continue with a prefix of the failing one",
+        "the errno of a failing pwrite is part of the fault script; it is logged (e=) but is not an observable of the tie: the model (theorems "
+        "Pwrite_errno_irrelevant, C16_errno_irrelevant) treats every errno alike",
         "C14 tie: descriptor numbers are canonicalised to paths; flock/close calls and the descriptor table are compared by C16 only",
         "tiff kinds: pwrite offsets and bytes are C15's subject and are not compared here; call, descriptor, length and result are",
     ]
@@ -776,15 +1004,21 @@ def run(ctx):
     # ---- generated cases
     cases = []
     if prop == "C14":
-        ctx.rule = ("1..4 set/start/append*/stop cycles on one raw device through the real HAL (0..12 packets of 1..5 frames, pixel sizes with every "
-                    "residue mod 8, plain and file:// uris, empty names, life-cycle noise), under pwrite scripts aimed at each packet: full, 1, n-1, "
-                    "random splits, bursts of 1..3 zero-length results, rare errors; a quarter of the cases also fail one create. Compared with the "
+        ctx.rule = ("1..5 set/start/append*/stop cycles on one raw device through the real HAL (0..12 packets of 1..5 frames, pixel sizes with every "
+                    "residue mod 8, plain and file:// uris, empty names, life-cycle noise). Paths of one history are RELATED: a later path extends an "
+                    "earlier one (run1 then run10, out.raw then out.raw.1), is a strict prefix of an earlier one, is the same path again (either "
+                    "spelling), or is configured after a set of its own prefix without a start in between (counted as paths:*). Each history runs "
+                    "under pwrite scripts aimed at each packet: full, 1, n-1, "
+                    "random splits, bursts of 1..3 zero-length results, rare errors (errno drawn from EIO/ENOSPC/EAGAIN/EINTR/EBADF); a quarter of the cases also fail one create. "
+                    "Independent oracle on the files of EVERY case: a file exists at the path of every started acquisition; it holds exactly the packets of the "
+                    "last acquisition configured for that path (prefix rule for an acquisition whose append failed); violations are minimised (ops, packets, scripts). "
+                    "The first disagreements with the model are shrunk too, with the oracle run on every candidate. Compared with the "
                     "extracted model: every open (path, success) and pwrite (file, offset, length, result), HAL status and device state per call, final "
                     "bytes of every file read back from disk (flock/close calls, descriptor numbers and the descriptor table are C16's observables). Non-trivial = at least one append and >= 4 system calls; "
                     "distinct = distinct (scripts, op list).")
         n = 60000 if thorough else 6000
         for i in range(n):
-            c = gen_history(rng, "raw", thorough)
+            c = gen_history(rng, "raw", thorough, related=True)
             short_write_script(rng, c)
             if rng.random() < 0.25:
                 k = rng.randrange(0, 8)
@@ -796,15 +1030,18 @@ def run(ctx):
         ctx.rule = ("reference histories (set/start/append*/stop cycles with life-cycle noise: never started, double start, stop/append when idle, "
                     "close while running, foreign descriptors opened and closed in between) for each kind raw, tiff, tiff-json, trash; for EVERY index "
                     "of an open or pwrite call of the fault-free run one case with that call failing once and one with it failing from then on "
-                    "(open failure and flock failure; pwrite error; three zero-length results), plus random mixes of faults and short writes. Each case "
-                    "runs in a forked child of the harness (crash / stack overflow / CPU limit are observables). Compared with the extracted model: "
+                    "(open failure and flock failure; pwrite error with an errno of EIO/ENOSPC/EAGAIN/EINTR/EBADF rotating over the indices, every errno "
+                    "persistent at least once per history -- counted as errno:*; three zero-length results), plus random mixes of faults and short writes. Each case "
+                    "runs in a forked child of the harness; crash / stack overflow / a call that does not return within the budget (the same pwrite reissued "
+                    "1000 times without progress -> exit 80; > 4000 system calls in one call -> exit 79; CPU 10 s; wall 30 s) are observables attributed to the case. "
+                    "Compared with the extracted model: "
                     "system-call log, HAL status and state per call, final descriptor table. Non-trivial = a system call failed or >= 3 ops, and >= 4 "
                     "system calls.")
         nref = 330 if thorough else 12    # x 3 kinds (+ trash/6): quick sweeps every fault index of 38 histories, thorough of 1045
         refs = []
         for kind in KINDS:
             for i in range(nref if kind != "trash" else max(1, nref // 6)):
-                refs.append(gen_history(rng, kind, False))
+                refs.append(gen_history(rng, kind, False, related=True))
         counts = count_calls(orac, refs)
         for c, (no, nw) in zip(refs, counts):
             cases.append(clone(c))
@@ -812,12 +1049,12 @@ def run(ctx):
         ctx.extra["reference_histories"] = len(refs)
         # random mixes
         for i in range(30000 if thorough else 3000):
-            c = gen_history(rng, rng.choice(KINDS[:3]), False)
+            c = gen_history(rng, rng.choice(KINDS[:3]), False, related=True)
             toks = []
             for _ in range(rng.randrange(0, 40)):
                 r = rng.random()
-                toks.append("F" if r < 0.7 else "E" if r < 0.8 else str(rng.choice([0, 0, 1, 7, 100])))
-            c["ws"] = [rng.choice(["F", "F", "F", "E", "0"]), toks]
+                toks.append("F" if r < 0.7 else rng.choice(ERRNOS) if r < 0.8 else str(rng.choice([0, 0, 1, 7, 100])))
+            c["ws"] = [rng.choice(["F", "F", "F", rng.choice(ERRNOS), "0"]), toks]
             c["cs"] = [rng.choice(["o", "o", "o", "f", "l"]), "".join(rng.choice("oooofl") for _ in range(rng.randrange(0, 10)))]
             cases.append(c)
         ctx.sample({"kind": refs[0]["kind"], "ops": [o[:2] if o[0] != "append" else ["append", "%d bytes" % (len(o[1]) // 2)] for o in refs[0]["ops"]],
